@@ -303,10 +303,72 @@ func originsCase(e *ev.Env, c *ev.Case) {
 			e.Sample("origin-value|"+h.deco, map[string]any{"scheme": smNames[cfg.mode], "host": cfg.host, "trusted": cfg.trustedCfg, "value": h.raw, "relation": h.relation})
 			e.Stat("origin_values|"+h.relation+":"+h.deco, 1)
 		}
+		// the app may be reachable over both schemes: some probes arrive on another scheme mode, and
+		// some repeat the previous probe's headers (same Origin / Referer, other request scheme)
+		if r.Chance(1, 4) {
+			s.modeOv = gen.Pick(r, modesOf(cfg)) + 1
+			if i > 0 && r.Bool() {
+				prev := hs.steps[len(hs.steps)-1]
+				s.o, s.ref = prev.o, prev.ref
+			}
+		}
 		hs.steps = append(hs.steps, s)
+	}
+	if r.Chance(1, 4) {
+		hs.steps = append(hs.steps, schemeAlternation(r, cfg)...)
+		e.Stat("origin_cases_with_scheme_alternation", 1)
 	}
 	runHistory(e, c, hs, nil, "")
 	e.Stat("origin_cases", 1)
+}
+
+// modesOf lists the ways a request can arrive at this app: plain or TLS always; through the trusted
+// proxy (https) or with a spoofed X-Forwarded-Proto from an untrusted peer (http) only when the app
+// was built with TrustProxy.
+func modesOf(cfg *hcfg) []int {
+	if cfg.mode == smProxyHTTPS || cfg.mode == smProxySpoof {
+		return []int{smHTTP, smTLS, smProxyHTTPS, smProxySpoof}
+	}
+	return []int{smHTTP, smTLS}
+}
+
+// schemeAlternation: one Origin (or Referer) value — the site's own origin on scheme A — sent with
+// a valid token in requests that alternate between scheme A (same origin) and scheme B (cross
+// origin: the scheme differs), in either order. Each request is judged on its own.
+func schemeAlternation(r *gen.Rand, cfg *hcfg) []step {
+	var mA, mB []int
+	a := gen.Pick(r, []string{"http", "https"})
+	for _, m := range modesOf(cfg) {
+		if schemeOf(m) == a {
+			mA = append(mA, m)
+		} else {
+			mB = append(mB, m)
+		}
+	}
+	t := hostTuple(a, cfg.host)
+	val := &hdrVal{raw: t.canon(), tuple: t, tupleOK: true, relation: "own-host", deco: "canon"}
+	var o, ref *hdrVal
+	switch r.PickW(6, 3, 1) {
+	case 0:
+		o = val
+	case 1:
+		ref = &hdrVal{raw: t.canon() + "/form", tuple: t, tupleOK: true, relation: "own-host", deco: "path"}
+	default:
+		o, ref = &hdrVal{raw: "null", isNull: true}, &hdrVal{raw: t.canon() + "/", tuple: t, tupleOK: true, relation: "own-host", deco: "slash"}
+	}
+	n := r.Range(2, 6)
+	first := r.Intn(2) // 0: the legitimate scheme first, 1: the other scheme first
+	var out []step
+	for i := 0; i < n; i++ {
+		m := gen.Pick(r, mA)
+		label := "own-origin-on-its-scheme"
+		if (i+first)%2 == 1 {
+			m, label = gen.Pick(r, mB), "own-origin-on-the-other-scheme"
+		}
+		out = append(out, step{kind: kPost, method: unsafeFor(r, cfg), sidSel: selOwn, ext: selOwn, ck: selOwn,
+			label: label, orig: ofExplicit, o: o, ref: ref, modeOv: m + 1})
+	}
+	return out
 }
 
 // ---------------------------------------------------------------------------------------------
@@ -523,6 +585,45 @@ func corpus(e *ev.Env) {
 				}
 				_, nt := runHistory(e, c, hs, nil, "")
 				noteHistory(e, hs, nt)
+			}
+		}
+	})
+	// One app reachable over http and https: the site's own origin of one scheme is same-origin only
+	// for requests on that scheme — in every order, through Origin and through Referer.
+	e.Corpus("scheme-alternation", func(c *ev.Case) {
+		for _, base := range []int{smHTTP, smProxyHTTPS} {
+			for _, host := range []string{"example.com", "example.com:8080"} {
+				for _, a := range []string{"http", "https"} {
+					for _, useRef := range []bool{false, true} {
+						for first := 0; first < 2; first++ {
+							cfg := originCorpusCfg(base, host)
+							var mA, mB []int
+							for _, m := range modesOf(cfg) {
+								if schemeOf(m) == a {
+									mA = append(mA, m)
+								} else {
+									mB = append(mB, m)
+								}
+							}
+							t := hostTuple(a, host)
+							hs := &histSpec{cfg: cfg, nClients: 1, steps: mkSteps("fetch")}
+							for i := 0; i < 2*len(mA)*len(mB); i++ {
+								m := mA[(i/2)%len(mA)]
+								if (i+first)%2 == 1 {
+									m = mB[(i/2)%len(mB)]
+								}
+								s := step{kind: kPost, method: "POST", sidSel: selOwn, ext: selOwn, ck: selOwn, label: "own-origin", orig: ofExplicit, modeOv: m + 1}
+								if useRef {
+									s.ref = &hdrVal{raw: t.canon() + "/form", tuple: t, tupleOK: true, relation: "own-host", deco: "path"}
+								} else {
+									s.o = &hdrVal{raw: t.canon(), tuple: t, tupleOK: true, relation: "own-host", deco: "canon"}
+								}
+								hs.steps = append(hs.steps, s)
+							}
+							runHistory(e, c, hs, nil, "")
+						}
+					}
+				}
 			}
 		}
 	})
